@@ -1,10 +1,29 @@
-// Native replay for C06: the REAL parallel_sort on inputs with a single inversion at every position.
+// Native replay for C06 on the REAL headers / library (argv[1] = name of the job whose obligation failed):
+//   sort.*            parallel_sort on inputs with a single inversion at every position + pseudo-random inputs
+//   reduce.* detreduce.*   free-monoid (string) reductions: operand order of every parallel_reduce overload; schedule independence of every
+//                     parallel_deterministic_reduce overload (parenthesisation string + float bit pattern) under forced and perturbed schedules
+//   scan.*            parallel_scan with a non-commutative operation: every element gets exactly one final pass with the right prefix; total returned
 #include <oneapi/tbb/parallel_sort.h>
+#include <oneapi/tbb/parallel_reduce.h>
+#include <oneapi/tbb/parallel_scan.h>
+#include <oneapi/tbb/blocked_range.h>
+#include <oneapi/tbb/task_arena.h>
+#include <oneapi/tbb/task_group.h>
+#include <oneapi/tbb/global_control.h>
+#include <atomic>
+#include <chrono>
 #include <cstdio>
+#include <cstring>
+#include <thread>
 #include <vector>
 #include <algorithm>
 #include <string>
-int main(int argc, char** argv) {
+
+using range_t = tbb::blocked_range<int>;
+using clk = std::chrono::steady_clock;
+
+static int sort_recipe(const std::string& job) {
+    const char* cls = job.find("probe") != std::string::npos ? "sort-probe-misses-pair" : "sort-result-not-sorted";
     for (size_t n : {500u, 501u, 512u, 1000u, 4096u}) {
         for (size_t p = 0; p + 1 < n; ++p) {
             if (n > 600 && p > 20 && p + 20 < n && p % 97) continue;
@@ -12,10 +31,230 @@ int main(int argc, char** argv) {
             v[p + 1] = v[p] - 1;                       // the only descent is between positions p and p+1
             std::vector<int> expect = v; std::sort(expect.begin(), expect.end());
             tbb::parallel_sort(v.begin(), v.end());
-            if (v != expect) { std::printf("REPRODUCED class=sort-probe-misses-pair parallel_sort of %zu ints that are sorted except for one descent between positions %zu and %zu returned the input unsorted\n", n, p, p + 1); return 0; }
+            if (v != expect) { std::printf("REPRODUCED class=%s parallel_sort of %zu ints that are sorted except for one descent between positions %zu and %zu did not return them sorted\n", cls, n, p, p + 1); return 0; }
         }
     }
-    for (int t = 0; t < 200; ++t) { size_t n = 400 + 37 * t; std::vector<int> v(n); unsigned s = t * 7919u + 1; for (auto& x : v) { s = s * 1103515245u + 12345u; x = (int)(s >> 16) % 1000; }
-        std::vector<int> e = v; std::sort(e.begin(), e.end()); tbb::parallel_sort(v.begin(), v.end()); if (v != e) { std::printf("REPRODUCED class=sort-wrong parallel_sort of %zu pseudo-random ints is not sorted\n", n); return 0; } }
+    for (int t = 0; t < 200; ++t) { size_t n = 400 + 37 * t; std::vector<int> v(n); unsigned s = t * 7919u + 1; for (auto& x : v) { s = s * 1103515245u + 12345u; x = (int)(s >> 16) % (t % 3 ? 1000 : 7); }
+        std::vector<int> e = v; std::sort(e.begin(), e.end()); tbb::parallel_sort(v.begin(), v.end()); if (v != e) { std::printf("REPRODUCED class=sort-wrong parallel_sort of %zu pseudo-random ints is not a sorted permutation of its input\n", n); return 0; } }
     std::printf("NOT-REPRODUCED\n"); return 0;
+}
+
+// ---- schedule perturbation inside the user's leaf function ---------------------------------------------------------------------------
+static std::atomic<int> g_perturb{0};      // 0: none, else seed
+static void perturb(int key) {
+    int s = g_perturb.load(std::memory_order_relaxed); if (!s) return;
+    unsigned h = (unsigned)key * 2654435761u ^ (unsigned)s * 40503u; h ^= h >> 13; unsigned us = h % 60;
+    if (us < 20) return; auto t0 = clk::now(); while (clk::now() - t0 < std::chrono::microseconds(us)) std::this_thread::yield();
+}
+static char sym(int i) { return (char)('a' + i % 26); }
+
+// ---- parallel_reduce: operand order ----------------------------------------------------------------------------------------------------
+struct CatBody {
+    std::string s;
+    CatBody() {}
+    CatBody(CatBody&, tbb::split) {}
+    void operator()(const range_t& r) { perturb(r.begin()); for (int i = r.begin(); i != r.end(); ++i) s += sym(i); }
+    void join(CatBody& rhs) { s += rhs.s; }
+};
+static std::string cat_leaf(const range_t& r, std::string v) { perturb(r.begin()); for (int i = r.begin(); i != r.end(); ++i) v += sym(i); return v; }
+static std::string cat_join(const std::string& a, const std::string& b) { return a + b; }
+
+template <typename F> static bool check_cat(const char* what, int n, int grain, F call) {
+    std::string want; for (int i = 0; i < n; ++i) want += sym(i);
+    std::string got = call(range_t(0, n, grain));
+    if (got == want) return true;
+    size_t k = 0; while (k < got.size() && k < want.size() && got[k] == want[k]) ++k;
+    std::printf("REPRODUCED class=reduce-operand-order %s over [0,%d) grain %d with string concatenation (associative, not commutative) returned a value of length %zu that differs from the left-to-right fold (length %zu) first at position %zu\n",
+                what, n, grain, got.size(), want.size(), k);
+    return false;
+}
+static bool reduce_order() {
+    tbb::affinity_partitioner ap1, ap2, ap3, ap4;
+    for (int threads : {1, 2, 4, 8}) {
+        tbb::task_arena arena(threads);
+        bool ok = true;
+        arena.execute([&] {
+            for (int rep = 0; rep < 6 && ok; ++rep) for (int n : {1, 2, 7, 64, 1000, 4099}) for (int grain : {1, 3, 100}) {
+                g_perturb = (rep % 2) ? rep * 31 + n : 0;
+                tbb::task_group_context c;
+#define L(desc, ...) ok = ok && check_cat(desc, n, grain, [&](const range_t& r) { return tbb::parallel_reduce(r, std::string(), cat_leaf, cat_join, ##__VA_ARGS__); })
+                L("parallel_reduce(range, identity, f, reduction)"); L("parallel_reduce(.., simple_partitioner)", tbb::simple_partitioner()); L("parallel_reduce(.., auto_partitioner)", tbb::auto_partitioner());
+                L("parallel_reduce(.., static_partitioner)", tbb::static_partitioner()); L("parallel_reduce(.., affinity_partitioner)", ap1);
+                L("parallel_reduce(.., context)", c); L("parallel_reduce(.., simple_partitioner, context)", tbb::simple_partitioner(), c); L("parallel_reduce(.., auto_partitioner, context)", tbb::auto_partitioner(), c);
+                L("parallel_reduce(.., static_partitioner, context)", tbb::static_partitioner(), c); L("parallel_reduce(.., affinity_partitioner, context)", ap2, c);
+#undef L
+#define B(desc, ...) ok = ok && check_cat(desc, n, grain, [&](const range_t& r) { CatBody b; tbb::parallel_reduce(r, b, ##__VA_ARGS__); return b.s; })
+                B("parallel_reduce(range, body)"); B("parallel_reduce(range, body, simple_partitioner)", tbb::simple_partitioner()); B("parallel_reduce(range, body, auto_partitioner)", tbb::auto_partitioner());
+                B("parallel_reduce(range, body, static_partitioner)", tbb::static_partitioner()); B("parallel_reduce(range, body, affinity_partitioner)", ap3);
+                B("parallel_reduce(range, body, context)", c); B("parallel_reduce(range, body, simple_partitioner, context)", tbb::simple_partitioner(), c); B("parallel_reduce(range, body, auto_partitioner, context)", tbb::auto_partitioner(), c);
+                B("parallel_reduce(range, body, static_partitioner, context)", tbb::static_partitioner(), c); B("parallel_reduce(range, body, affinity_partitioner, context)", ap4, c);
+#undef B
+                if (!ok) return;
+            }
+        });
+        g_perturb = 0;
+        if (!ok) return false;
+    }
+    return true;
+}
+
+// ---- parallel_deterministic_reduce: the join tree does not depend on the schedule ------------------------------------------------------
+enum Mode { FREE, OVERLAP };
+static std::atomic<int> mode{FREE};
+static std::atomic<bool> right_started{false};
+static void leaf_hook(const range_t& r) {
+    perturb(r.begin());
+    if (mode.load() != OVERLAP) return;
+    if (r.begin() != 0) { right_started = true; return; }
+    auto t0 = clk::now(); while (!right_started && clk::now() - t0 < std::chrono::seconds(5)) std::this_thread::yield();   // left half: do not finish before the right half has started
+}
+static std::vector<float> fdata;
+static float fleaf(const range_t& r, float v) { leaf_hook(r); for (int i = r.begin(); i != r.end(); ++i) v += fdata[i]; return v; }
+static float fjoin(float a, float b) { return a + b; }
+static std::string pleaf(const range_t& r, std::string v) { leaf_hook(r); for (int i = r.begin(); i != r.end(); ++i) v += sym(i); return v; }
+static std::string pjoin(const std::string& a, const std::string& b) { return "(" + a + "." + b + ")"; }
+struct ParenBody {
+    std::string s;
+    ParenBody() {}
+    ParenBody(ParenBody&, tbb::split) {}
+    void operator()(const range_t& r) { leaf_hook(r); for (int i = r.begin(); i != r.end(); ++i) s += sym(i); }
+    void join(ParenBody& rhs) { s = "(" + s + "." + rhs.s + ")"; }
+};
+static unsigned bits(float f) { unsigned u; std::memcpy(&u, &f, sizeof u); return u; }
+template <typename F> static bool with_busy_worker(F fn) {      // runs fn while the arena's only worker is held inside an unrelated task
+    tbb::task_group tg; std::atomic<bool> started{false}, release{false};
+    tg.run([&] { started = true; auto t0 = clk::now(); while (!release && clk::now() - t0 < std::chrono::seconds(10)) std::this_thread::yield(); });
+    auto t0 = clk::now(); while (!started && clk::now() - t0 < std::chrono::seconds(5)) std::this_thread::yield();
+    bool ok = started; if (ok) fn(); release = true; tg.wait(); return ok;
+}
+static bool det_fail(const char* what, const char* sched, const std::string& got, const std::string& want) {
+    std::printf("REPRODUCED class=deterministic-reduce-schedule-dependent %s: join tree is %s under schedule '%s' but %s under the reference schedule - the split/join tree depends on the schedule\n", what, got.c_str(), sched, want.c_str());
+    return false;
+}
+static bool det_reduce() {
+    const int N = 1000; fdata.resize(N); unsigned s = 12345u;
+    for (int i = 0; i < N; ++i) { s = s * 1664525u + 1013904223u; float mag = (i % 5 == 0) ? 1.0e6f : (i % 3 == 0 ? 1.0e-3f : 1.0f); fdata[i] = mag * (float((s >> 8) & 0xffff) / 65536.0f - 0.37f); }
+    const range_t srange(0, 12), frange(0, N); const tbb::static_partitioner sp; const tbb::simple_partitioner simp;
+    bool ok = true;
+    // (1) static_partitioner, 2-thread arena: siblings overlap (S1) vs. left sibling finishes first (S2), all static overloads, symbolic and float
+    tbb::task_arena arena2(2);
+    arena2.execute([&] {
+        tbb::task_group_context c;
+        auto sym_calls = [&](int k) -> std::string {
+            right_started = false;
+            switch (k) { case 0: return tbb::parallel_deterministic_reduce(srange, std::string(), pleaf, pjoin, sp);
+                         case 1: return tbb::parallel_deterministic_reduce(srange, std::string(), pleaf, pjoin, sp, c);
+                         case 2: { ParenBody b; tbb::parallel_deterministic_reduce(srange, b, sp); return b.s; }
+                         default: { ParenBody b; tbb::parallel_deterministic_reduce(srange, b, sp, c); return b.s; } } };
+        const char* names[] = {"parallel_deterministic_reduce(range, identity, f, reduction, static_partitioner)", "parallel_deterministic_reduce(range, identity, f, reduction, static_partitioner, context)",
+                               "parallel_deterministic_reduce(range, body, static_partitioner)", "parallel_deterministic_reduce(range, body, static_partitioner, context)"};
+        mode = OVERLAP; std::string want[4]; float fwant[2];
+        for (int k = 0; k < 4; ++k) want[k] = sym_calls(k);
+        right_started = false; fwant[0] = tbb::parallel_deterministic_reduce(frange, 0.0f, fleaf, fjoin, sp);
+        right_started = false; fwant[1] = tbb::parallel_deterministic_reduce(frange, 0.0f, fleaf, fjoin, sp, c);
+        mode = FREE;
+        for (int k = 1; k < 4 && ok; ++k) if (want[k] != want[0]) ok = det_fail(names[k], "siblings overlap", want[k], want[0]);
+        if (ok && bits(fwant[0]) != bits(fwant[1])) { std::printf("REPRODUCED class=deterministic-reduce-schedule-dependent float sum differs between the static_partitioner overloads with and without context: 0x%08x vs 0x%08x\n", bits(fwant[1]), bits(fwant[0])); ok = false; }
+        if (!ok) return;
+        with_busy_worker([&] {
+            for (int k = 0; k < 4 && ok; ++k) { std::string got = sym_calls(k); if (got != want[0]) ok = det_fail(names[k], "left sibling finishes before the right one starts", got, want[0]); }
+            if (!ok) return;
+            float g0 = tbb::parallel_deterministic_reduce(frange, 0.0f, fleaf, fjoin, sp), g1 = tbb::parallel_deterministic_reduce(frange, 0.0f, fleaf, fjoin, sp, c);
+            if (bits(g0) != bits(fwant[0]) || bits(g1) != bits(fwant[0])) { std::printf("REPRODUCED class=deterministic-reduce-schedule-dependent float sum of 1000 values with static_partitioner is 0x%08x / 0x%08x (with context) when the left sibling finishes first, 0x%08x when siblings overlap - not bit-identical across schedules\n", bits(g0), bits(g1), bits(fwant[0])); ok = false; }
+        });
+        for (int rep = 0; rep < 200 && ok; ++rep) { g_perturb = rep + 1; for (int k = 0; k < 4 && ok; ++k) { std::string got = sym_calls(k); if (got != want[0]) ok = det_fail(names[k], "perturbed leaf timing", got, want[0]); } }
+        g_perturb = 0;
+    });
+    if (!ok) return false;
+    // (2) simple_partitioner (and the default): the tree depends on range and grain only: identical for 1, 2, 4, 8 threads and any leaf timing
+    const char* snames[] = {"parallel_deterministic_reduce(range, identity, f, reduction)", "parallel_deterministic_reduce(range, identity, f, reduction, simple_partitioner)", "parallel_deterministic_reduce(range, identity, f, reduction, context)",
+                            "parallel_deterministic_reduce(range, identity, f, reduction, simple_partitioner, context)", "parallel_deterministic_reduce(range, body)", "parallel_deterministic_reduce(range, body, simple_partitioner)",
+                            "parallel_deterministic_reduce(range, body, context)", "parallel_deterministic_reduce(range, body, simple_partitioner, context)"};
+    for (int n : {13, 64}) for (int grain : {1, 3}) {
+        const range_t r(0, n, grain); std::string ref;
+        for (int threads : {1, 2, 4, 8}) {
+            tbb::task_arena arena(threads);
+            arena.execute([&] {
+                tbb::task_group_context c;
+                for (int rep = 0; rep < (threads == 1 ? 1 : 25) && ok; ++rep) {
+                    g_perturb = threads == 1 ? 0 : rep + 7 * threads;
+                    for (int k = 0; k < 8 && ok; ++k) {
+                        std::string got;
+                        switch (k) { case 0: got = tbb::parallel_deterministic_reduce(r, std::string(), pleaf, pjoin); break; case 1: got = tbb::parallel_deterministic_reduce(r, std::string(), pleaf, pjoin, simp); break;
+                                     case 2: got = tbb::parallel_deterministic_reduce(r, std::string(), pleaf, pjoin, c); break; case 3: got = tbb::parallel_deterministic_reduce(r, std::string(), pleaf, pjoin, simp, c); break;
+                                     case 4: { ParenBody b; tbb::parallel_deterministic_reduce(r, b); got = b.s; break; } case 5: { ParenBody b; tbb::parallel_deterministic_reduce(r, b, simp); got = b.s; break; }
+                                     case 6: { ParenBody b; tbb::parallel_deterministic_reduce(r, b, c); got = b.s; break; } default: { ParenBody b; tbb::parallel_deterministic_reduce(r, b, simp, c); got = b.s; break; } }
+                        if (ref.empty()) ref = got;
+                        if (got != ref) { char sch[64]; std::snprintf(sch, sizeof sch, "%d threads, perturbed leaf timing", threads); ok = det_fail(snames[k], sch, got, ref); }
+                        std::string flat; for (char ch : got) if (ch != '(' && ch != ')' && ch != '.') flat += ch;
+                        std::string want; for (int i = 0; i < n; ++i) want += sym(i);
+                        if (ok && flat != want) { std::printf("REPRODUCED class=reduce-operand-order %s over [0,%d): the leaves of the join tree read %s, not the elements in order\n", snames[k], n, flat.c_str()); ok = false; }
+                    }
+                }
+                g_perturb = 0;
+            });
+            if (!ok) return false;
+        }
+    }
+    return true;
+}
+
+// ---- parallel_scan ------------------------------------------------------------------------------------------------------------------------
+static std::vector<std::string> g_out; static std::vector<std::atomic<int>> g_finals(5000);
+struct ScanBody {
+    std::string sum;
+    ScanBody(const std::string& init) : sum(init) {}
+    ScanBody(ScanBody&, tbb::split) {}
+    template <typename Tag> void operator()(const range_t& r, Tag) {
+        perturb(r.begin());
+        for (int i = r.begin(); i != r.end(); ++i) { sum += sym(i); if (Tag::is_final_scan()) { g_out[i] = sum; g_finals[i]++; } }
+    }
+    void reverse_join(ScanBody& a) { sum = a.sum + sum; }
+    void assign(ScanBody& b) { sum = b.sum; }
+};
+static bool scan_check(const char* what, int n, int grain, const std::string& init, const std::string& total) {
+    std::string pre = init;
+    for (int i = 0; i < n; ++i) {
+        pre += sym(i);
+        if (g_finals[i] != 1) { std::printf("REPRODUCED class=scan-final-pass-count %s over [0,%d) grain %d: element %d got %d final passes\n", what, n, grain, i, (int)g_finals[i]); return false; }
+        if (g_out[i] != pre) { std::printf("REPRODUCED class=scan-wrong-prefix %s over [0,%d) grain %d: the final pass of element %d ran with a prefix of length %zu that is not the %zu elements before it (in order)\n", what, n, grain, i, g_out[i].size() ? g_out[i].size() - 1 : 0, pre.size() - 1); return false; }
+    }
+    if (total != pre) { std::printf("REPRODUCED class=scan-wrong-total %s over [0,%d) grain %d returned a total of length %zu, the full reduction has length %zu\n", what, n, grain, total.size(), pre.size()); return false; }
+    return true;
+}
+static bool scan_recipe() {
+    for (int threads : {1, 2, 4, 8}) {
+        tbb::task_arena arena(threads); bool ok = true;
+        arena.execute([&] {
+            for (int rep = 0; rep < 12 && ok; ++rep) for (int n : {1, 2, 9, 100, 1500}) for (int grain : {1, 4, 64}) for (int k = 0; k < 6 && ok; ++k) {
+                g_perturb = (rep % 3) ? rep * 17 + n + k : 0;
+                g_out.assign(n, std::string()); for (int i = 0; i < n; ++i) g_finals[i] = 0;
+                const range_t r(0, n, grain); std::string total; const char* what; std::string init;
+                auto lam = [&](const range_t& rr, const std::string& v, bool is_final) { perturb(rr.begin()); std::string s = v; for (int i = rr.begin(); i != rr.end(); ++i) { s += sym(i); if (is_final) { g_out[i] = s; g_finals[i]++; } } return s; };
+                auto comb = [](const std::string& a, const std::string& b) { return a + b; };
+                switch (k) {
+                    case 0: { what = "parallel_scan(range, body)"; init = "^"; ScanBody b(init); tbb::parallel_scan(r, b); total = b.sum; break; }
+                    case 1: { what = "parallel_scan(range, body, simple_partitioner)"; init = "^"; ScanBody b(init); tbb::parallel_scan(r, b, tbb::simple_partitioner()); total = b.sum; break; }
+                    case 2: { what = "parallel_scan(range, body, auto_partitioner)"; init = "^"; ScanBody b(init); tbb::parallel_scan(r, b, tbb::auto_partitioner()); total = b.sum; break; }
+                    case 3: what = "parallel_scan(range, identity, scan, reverse_join)"; total = tbb::parallel_scan(r, std::string(), lam, comb); break;
+                    case 4: what = "parallel_scan(range, identity, scan, reverse_join, simple_partitioner)"; total = tbb::parallel_scan(r, std::string(), lam, comb, tbb::simple_partitioner()); break;
+                    default: what = "parallel_scan(range, identity, scan, reverse_join, auto_partitioner)"; total = tbb::parallel_scan(r, std::string(), lam, comb, tbb::auto_partitioner()); break;
+                }
+                ok = scan_check(what, n, grain, init, total);
+            }
+            g_perturb = 0;
+        });
+        if (!ok) return false;
+    }
+    return true;
+}
+
+int main(int argc, char** argv) {
+    std::string job = argc > 1 ? argv[1] : "sort";
+    std::setvbuf(stdout, nullptr, _IONBF, 0);
+    if (job.rfind("sort", 0) == 0) return sort_recipe(job);
+    if (job.rfind("scan", 0) == 0) { if (scan_recipe()) std::printf("NOT-REPRODUCED\n"); return 0; }
+    if (job.rfind("detreduce", 0) == 0 || job == "reduce.dispatch") { if (det_reduce() && reduce_order()) std::printf("NOT-REPRODUCED\n"); return 0; }
+    if (reduce_order() && det_reduce()) std::printf("NOT-REPRODUCED\n");
+    return 0;
 }
